@@ -24,7 +24,7 @@ InitObs(mode) == [obs |-> EmptyFn, mode |-> mode, state |-> EmptyFn, gone |-> {}
 
 Registered(s, k) == k \in DOMAIN s.obs
 \* registration (also re-registration: replaces, never duplicates)
-Register_do(s, k, tok, val, st) == [s EXCEPT !.obs = Put(@, k, [tok |-> tok, last |-> val, non |-> 0, state |-> st])]
+Register_do(s, k, tok, val, st) == [s EXCEPT !.obs = Put(@, k, [tok |-> tok, last |-> val, non |-> 0, state |-> st, reg |-> TRUE])]     \* reg: 'last' is still the value of the registration response
 Deregister_do(s, k) == [s EXCEPT !.obs = Drop(@, k)]
 KeysOfTok(s, c, tok) == {k \in DOMAIN s.obs : k[1] = c /\ s.obs[k].tok = tok}
 KeysOfRes(s, r) == {k \in DOMAIN s.obs : k[2] = r}
@@ -33,5 +33,5 @@ KeysOfRes(s, r) == {k \in DOMAIN s.obs : k[2] = r}
 Notify_registered(s, k) == Registered(s, k)
 Notify_fresh(s, k, val) == s.obs[k].last < 0 \/ Fresher(s.obs[k].last, val)
 Notify_type(s, k, con)  == s.mode = 2 \/ con \/ s.obs[k].non < MaxNon        \* the sixth in a row must be Confirmable (unless NON_ALWAYS)
-Notify_do(s, k, val, con, st) == [s EXCEPT !.obs[k].last = val, !.obs[k].non = IF con THEN 0 ELSE @ + 1, !.obs[k].state = st]
+Notify_do(s, k, val, con, st) == [s EXCEPT !.obs[k].last = val, !.obs[k].non = IF con THEN 0 ELSE @ + 1, !.obs[k].state = st, !.obs[k].reg = FALSE]
 =============================================================================
